@@ -117,7 +117,7 @@ def dataset_spec(draw, naming=None, dense=None, raw=None, curated=None, features
                  min_nc=2, max_nc=10, max_nt=6, max_ns=40, shanks=None, nan=False,
                  merge_ready=False, raw_backends=('flat', 'flat', 'npy', 'cbin'),
                  full_feature_rows=None, int_templates=None, probe_labels=False, min_nt=2,
-                 big_nt=None, scales=None):
+                 big_nt=None, scales=None, footprints=False):
     ns = draw(st.integers(2, 12) | st.integers(2, max_ns))
     nt = draw(st.integers(min_nt, big_nt or max_nt))
     nc = draw(st.integers(min_nc, max_nc))
@@ -189,6 +189,12 @@ def dataset_spec(draw, naming=None, dense=None, raw=None, curated=None, features
             # stored channels at the edge of the footprint: 1e-4 of the usual size, not zero
             t['faint_cols'] = [draw(st.lists(st.integers(0, nloc - 1), max_size=nloc - 1,
                                              unique=True)) for _ in range(nt)]
+    if footprints and is_dense and draw(st.booleans()):
+        # sorter output: each template is exactly zero outside a footprint of a few channels
+        t['footprint'] = []
+        for _ in range(nt):
+            a = draw(st.integers(0, nc - 1))
+            t['footprint'].append(list(range(a, min(nc, a + draw(st.integers(1, nc))))))
     if scales and not t['int']:
         # physical units of the stored waveforms (arbitrary units, volts, microvolts ...)
         t['scale'] = draw(st.sampled_from(list(scales)))
@@ -360,6 +366,12 @@ def build(spec, dirpath, write_params=True):
         save('template_ind.npy', T.tcols)
     else:
         T.tcols = None
+    for k, keep in enumerate(t.get('footprint') or []):
+        for j in range(nloc):
+            if j not in keep:
+                data[k, :, j] = 0
+        if not np.any(data[k]):
+            data[k, 0, keep[0]] = 2
     if t.get('scale'):
         data = (data.astype(np.float64) * t['scale']).astype(t['dtype'])
     for k, f in enumerate(t.get('per_template_scale') or []):
@@ -389,6 +401,14 @@ def build(spec, dirpath, write_params=True):
             T.wm = spec['wm_scale'] * (np.eye(nc) + 0.1 / np.sqrt(nc) * rs.randn(nc, nc))
         else:
             T.wm = np.eye(nc) + 0.1 * rs.randn(nc, nc)
+        # matrix structure: Cholesky-style whitening is triangular, scaled identity is diagonal
+        kind = spec.get('wm_kind')
+        if kind == 'lower':
+            T.wm = np.tril(T.wm)
+        elif kind == 'upper':
+            T.wm = np.triu(T.wm)
+        elif kind == 'diag':
+            T.wm = np.diag(np.diag(T.wm))
         np.save(d / 'whitening_mat.npy', T.wm)
         if spec['wmi_file']:
             T.wmi_file = np.linalg.inv(T.wm) + 0.0
